@@ -25,7 +25,7 @@ ASSUMPTIONS = ["the sub-project task has only FS/SS inputs (FF/SF inputs could h
                "parent unit_time = 1", "file system replaced by the in-memory open()"]
 LEVEL_TEXT = "Seeded exploration over sub-project results, unit pairs, positions in the parent workflow and parent absences."
 LEVEL_NOTE = "Trusted: harness observers, the ceil() reference formula; sampling evidence only."
-PROBES = ["refusal_with_explicit_path", "configured_ok", "refusal_unsimulated", "refusal_failed", "remove_abs_true", "sub_with_absence", "sub_absence_beyond_end",
+PROBES = ["sub_simulated_with_unit_time", "refusal_with_explicit_path", "configured_ok", "refusal_unsimulated", "refusal_failed", "remove_abs_true", "sub_with_absence", "sub_absence_beyond_end",
           "unit_ratio_gt1", "unit_ratio_lt1", "unit_ratio_non_integer", "parent_absence_during_subtask", "subtask_finished", "with_predecessor", "configured_twice", "sub_from_backward_simulation", "parent_json_roundtrip"]
 
 UNITS = [60, 120, 180, 420, 600, 1200, 3600, 86400, 129600]
@@ -45,6 +45,10 @@ def gen(rng, tier):
         if us / float(up) > 30:  # keep the parent run short: at most ~30 parent steps per sub-project step
             up = rng.choice(UNITS)
     subm["unit_s"] = us
+    if rng.random() < 0.12:
+        # the sub-project was simulated with a clock that advances by 2 or 3 per step: its duration is its time, not its number of log entries
+        subcfg["unit_time"] = rng.choice([2, 3])
+        subcfg["absence"] = []
     mode = G.wchoice(rng, [("ok", 8), ("unsimulated", 1), ("failed", 1)])
     if mode == "failed":
         subcfg["max_time"] = rng.randint(0, 1)
@@ -156,6 +160,8 @@ def run(spec):
         res.count("sub_absence_beyond_end")
     if remove:
         res.count("remove_abs_true")
+    if sub["cfg"].get("unit_time", 1) != 1:
+        res.count("sub_simulated_with_unit_time")
     exp_work = d_sub - (len(inrange) if remove else 0)
     if task.default_work_amount != exp_work:
         res.add("work", "C20.work_amount.remove_%s%s" % (remove, ".beyond_end" if any(a >= d_sub for a in L) else ""),
